@@ -119,6 +119,10 @@ pub enum Op {
     List { d: u16 },
     ListLfn { d: u16, cap: u16 },
     HasOpen,
+    /// Stands for the long run of open calls (each one, granted or refused, draws a handle number)
+    /// after which the 32-bit handle counter comes round to `back` below a handle that is still
+    /// open (hook H4 moves the counter there).
+    LongHistory { which: u16, back: u8 },
     Label { v: u16 },
     Stale { kind: u8, which: u16, method: u8 },
     Reenter { d: u16, lfn: bool, method: u8, at: u8 },
@@ -151,6 +155,7 @@ impl Op {
             Op::List { .. } => "List",
             Op::ListLfn { .. } => "ListLfn",
             Op::HasOpen => "HasOpen",
+            Op::LongHistory { .. } => "LongHistory",
             Op::Label { .. } => "Label",
             Op::Stale { .. } => "Stale",
             Op::Reenter { .. } => "Reenter",
@@ -234,6 +239,7 @@ pub struct Profile {
     pub find: u32,
     pub list: u32,
     pub has_open: u32,
+    pub long_history: u32,
     pub label: u32,
     pub stale: u32,
     pub reenter: u32,
@@ -266,6 +272,7 @@ impl Profile {
             find: 0,
             list: 0,
             has_open: 0,
+            long_history: 0,
             label: 0,
             stale: 0,
             reenter: 0,
@@ -331,6 +338,7 @@ pub fn op_strategy(p: &Profile) -> BoxedStrategy<Op> {
             (any::<u16>(), prop_oneof![Just(0u16), Just(13u16), Just(64u16), Just(255u16), (0u16..800)]).prop_map(|(d, cap)| Op::ListLfn { d, cap }),
         ].boxed()),
         (p.has_open, Just(Op::HasOpen).boxed()),
+        (p.long_history, (any::<u16>(), 0u8..4).prop_map(|(which, back)| Op::LongHistory { which, back }).boxed()),
         (p.label, any::<u16>().prop_map(|v| Op::Label { v }).boxed()),
         (p.stale, (any::<u8>(), any::<u16>(), any::<u8>()).prop_map(|(kind, which, method)| Op::Stale { kind, which, method }).boxed()),
         (p.reenter, (any::<u16>(), any::<bool>(), any::<u8>(), any::<u8>()).prop_map(|(d, lfn, method, at)| Op::Reenter { d, lfn, method, at }).boxed()),
